@@ -31,7 +31,7 @@ THEOREMS = [P + t for t in (
     "guardrails_refuses_iff", "connect_iff", "guardrail_iff", "guardrail_sound", "gen_guardrails_everywhere",
     "svc_table_pinned", "node_table_pinned", "link_table_pinned", "guard_table_pinned", "no_limit_pinned", "tables_complete",
     "gen_service_properties_readable", "gen_node_required_readable", "gen_names_are_members", "gen_no_instance_limit",
-    "gen_instances_void", "validate_rejects_with_topology_of", "validate_rejects_with_topology", "validate_iff_spec_gen")]
+    "gen_instances_void", "validate_rejects_with_topology_of", "validate_rejects_with_topology", "validate_iff_spec_gen", "validate_counts_by_identity")]
 EXHAUSTIVE = True
 TRUSTED_BASE = [
     "gen/constraints.py: dump of the three constraint tables, getter/shallow-sliver property lists, guardrail idiom, _list_nodes filter",
@@ -52,6 +52,9 @@ RULE = ("grid A: 15 service types x 23 site placements of 0..4 interfaces over <
         "type's constrained properties; grid C: 6 node types x site/image/management_ip/component flags; grid D: natural builds (NICs, "
         "add_facility, add_switch, port mirror, peer(), dangling and owner-less interfaces, substrate topologies); grid E: edited tables; "
         "grid F: service type x interface kind x constructor/connect_interface x fresh/connected. quick samples A and B; thorough runs all. "
+        "naming: half of A/B/D use node and interface names whose derived '<node>-<interface>' service-port names all coincide (n1, n1-x, "
+        ".. with x-x-p0, x-p0, ..); D adds NIC builds with prefix-related names (n1/nic-aa vs n1-nic/aa, nic1/nic10); interfaces are "
+        "counted by identity in the request line (name carried as a label) and in the oracle. "
         "distinct by abstract configuration")
 
 SITES = ["RENC", "UKY", "LBNL"]
@@ -254,13 +257,13 @@ def grid_D():
         n["name"] = name
         return n
     for ty in SVC_TYPES:
-        for sites in (("RENC", "UKY", "UKY"), ("RENC", "RENC", "RENC"), ("RENC", "UKY", "LBNL")):
-            nodes = lambda: [named("n1", sites[0], "nic-aa"), named("n1-nic", sites[1], "aa"), named("n3", sites[2], "nic1"),
-                             named("n3-nic1", sites[0], "0"), named("n3-nic", sites[1], "10")]
-            for ifs in ([[0, 0, 0], [1, 0, 0]], [[0, 0, 0], [1, 0, 0], [2, 0, 0]], [[2, 0, 0], [1, 0, 0], [0, 0, 0]],
-                        [[0, 0, 0], [1, 0, 0], [0, 0, 1], [1, 0, 1]], [[0, 0, 0]], [[2, 0, 0], [3, 0, 0]]):
-                for how in ("ctor", "connect"):
-                    yield {"exp": True, "ov": None, "nodes": nodes(), "svcs": [mksvc(ty, ifs, props=baseline_props(ty), how=how)]}
+        for sites in (("RENC", "UKY", "UKY"), ("RENC", "RENC", "RENC")):
+            nodes = lambda k: [named("n1", sites[0], "nic-aa"), named("n1-nic", sites[1], "aa"), named("n3", sites[2], "nic1"),
+                               named("n3-nic1", sites[0], "0x"), named("n3-nic", sites[1], "10x")][:k]
+            for vi, ifs in enumerate(([[0, 0, 0], [1, 0, 0]], [[0, 0, 0], [1, 0, 0], [2, 0, 0]], [[2, 0, 0], [1, 0, 0], [0, 0, 0]],
+                                      [[0, 0, 0], [1, 0, 0], [0, 0, 1], [1, 0, 1]], [[0, 0, 0]], [[3, 0, 0], [4, 0, 0]])):
+                for how in (("ctor", "connect") if vi < 2 else ("ctor",)):
+                    yield {"exp": True, "ov": None, "nodes": nodes(1 + max(x[0] for x in ifs)), "svcs": [mksvc(ty, ifs, props=baseline_props(ty), how=how)]}
     # port mirror through its own constructor
     for site in (None, "RENC", "UKY"):
         for kind in ("DedicatedPort", "SharedPort"):
@@ -370,13 +373,17 @@ class Built:
 
 
 def attach(F, t, svc, i):
-    """connect_interface, or - when the guardrails refuse - the same wiring through add_interface + add_link"""
+    """connect_interface, or - when the guardrails refuse - the same wiring through add_interface + add_link;
+    returns the name of the service port"""
+    owner = t.get_owner_node(i)
     try:
         svc.connect_interface(interface=i)
+        return "%s-%s" % (owner.name, i.name)
     except F["TopologyException"]:
-        owner = t.get_owner_node(i)
-        sp = svc.add_interface(name="%s-%s" % (owner.name, i.name), itype=F["InterfaceType"].ServicePort)
-        t.add_link(name="%s-link-%d" % (sp.name, len(t.links)), ltype=F["LinkType"].L2Path, interfaces=[i, sp])
+        k = len(t.links)
+        sp = svc.add_interface(name="%s-%s-h%d" % (owner.name, i.name, k), itype=F["InterfaceType"].ServicePort)
+        t.add_link(name="%s-link" % sp.name, ltype=F["LinkType"].L2Path, interfaces=[i, sp])
+        return sp.name
 
 
 def node_name(case, ni):
@@ -472,6 +479,7 @@ def build(case, F):
         name = "svc%d" % si
         ifs = [b.iface[tuple(x)] for x in s["ifs"]]
         kw = prop_kwargs(F, s["props"])
+        pnames = None
         if s["how"] == "mirror":
             kw.pop("mirror_port", None)
             kw.pop("mirror_direction", None)
@@ -484,17 +492,16 @@ def build(case, F):
             except F["TopologyException"]:
                 # refused by the guardrails: wire the interfaces by hand instead
                 svc = t.add_network_service(name=name, nstype=ST[s["ty"]], site=s["site"], **kw)
-                for i in ifs:
-                    attach(F, t, svc, i)
+                pnames = [attach(F, t, svc, i) for i in ifs]
         else:
             svc = t.add_network_service(name=name, nstype=ST[s["ty"]], site=s["site"], **kw)
-            for i in ifs:
-                attach(F, t, svc, i)
+            pnames = [attach(F, t, svc, i) for i in ifs]
         svcs.append(svc)
         aifs = []
-        for x in s["ifs"]:
+        for xi, x in enumerate(s["ifs"]):
             n = case["nodes"][x[0]]
-            aifs.append(["p", "%s-%s" % (node_name(case, x[0]), b.iface[tuple(x)].name), [[n["groups"][x[1]]["kinds"][x[2]], n["site"]]]])
+            pn = pnames[xi] if pnames else "%s-%s" % (node_name(case, x[0]), b.iface[tuple(x)].name)
+            aifs.append(["p", pn, [[n["groups"][x[1]]["kinds"][x[2]], n["site"]]]])
         b.abstract[name] = [s["ty"], s["site"], list(s["props"]), None, aifs]
     for si, s in enumerate(case["svcs"]):
         svc, name = svcs[si], "svc%d" % si
